@@ -111,10 +111,12 @@ func runC04(w *core.World, r *core.Report) {
 	r.Rule("R5", "Rewind: after an Up every return passes Top()==true or an error edge")
 	r.Rule("R6", "the Up of the '_' case is behind Top()==false")
 	r.Rule("R7", "the depth limit applies to descents only: Up, Next, Previous, Rewind and Same are reachable in the dispatcher without passing a comparison with state.MaxLevel")
+	r.Rule("R10", "after saving a session that is new to the store the engine re-attaches its own state and cache to the persister")
 	r.Rule("R9", "entries of the navigation stack are never written in place: the only writes are whole-field stores in package state (append / re-slice)")
 	r.Rule("R8", "the position (ExecPath, SizeIdx) is always written to the snapshot: no omitempty on these fields")
 
 	checkExecPathElementsImmutable(w, r, "R9")
+	checkReattachAfterSave(w, r, "R10")
 	disp := navDispatchers(w)
 	if len(disp) != 1 {
 		r.Undecided("R1", "navigation dispatcher", token.NoPos, fmt.Sprintf("expected exactly one function in package vm that calls State.Down (the target dispatcher), found %d", len(disp)))
